@@ -235,7 +235,7 @@ void harness(void)
     }
     vg_dup_calls = 0; vg_dup_want = (K_IN_REST ? (unsigned long) vg_k - (unsigned long) i + 1 : 0UL);
     w_n = OPT_N; w_idx = n; w_argc = argc; w_i = i; w_k = vg_k; w_flags = spifopt_settings.flags;
-    handle_arglist(n, NULL, 0, i, argc, argv);
+    handle_arglist(n, (i < argc) ? (spif_charptr_t) argv[i] : (spif_charptr_t) NULL, 0, i, argc, argv);
     VERIF_CANARY();
 }
 #endif
